@@ -167,6 +167,7 @@ func runC03(r *Report) {
 	}
 
 	ruleBoundsSign(r)
+	ruleNewestFirst(r)
 	ruleWrap(r)
 	ruleFreshScanReader(r)
 	ruleNoMergeDecode(r)
@@ -375,7 +376,14 @@ func ruleBoundsSign(r *Report) {
 			r.Bad(rule, key, fn.Pos(), "the binary-search callback does not compare (entry key, target) in this order: the search descends into the wrong half")
 		}
 	}
-	// (6) stacked reader looks newest-first
+}
+
+// ruleNewestFirst: the stacked reader answers point lookups from the newest table down.
+func ruleNewestFirst(r *Report) {
+	const rule = "newest-first"
+	r.Rule(rule, 2, "the stacked reader walks its readers from the last (newest) to the first (oldest) for point lookups")
+	p := r.P
+	_ = p
 	for _, k := range []string{"sstables.SuperSSTableReader.Get", "sstables.SuperSSTableReader.Contains"} {
 		fn := r.NeedFunc(rule, k)
 		if fn == nil {
